@@ -61,6 +61,9 @@ def observe(V, F):
              face_areas=fa, face_area_forms=C.face_area_forms(p, fa), centroid=np.array(p.centroid, float),
              inertia=np.array(p.inertia_tensor, float), tris=tris, vertices=np.array(p.vertices, float))
     o["float32_form"] = C.float32_probe(lambda v: coxeter.shapes.Polyhedron(v, [np.array(f) for f in F]), V)
+    # a copy of the solid is a solid of its own with the same measures: resizing either leaves the other's measures alone
+    o["copies"] = C.copy_probe(lambda: coxeter.shapes.Polyhedron(np.array(V, float), [np.array(f) for f in F]),
+                               lambda s_: dict(volume=s_.volume, surface_area=s_.surface_area, centroid=s_.centroid, inertia=s_.inertia_tensor))
     # (last: this resizes p) the measures are those of the solid as it is now, also when they were asked for before a resize
     o["after_resize"] = C.resize_probe(p, lambda s_: coxeter.shapes.Polyhedron(np.array(s_.vertices), [np.array(f) for f in s_.faces]))
     return o
@@ -161,6 +164,8 @@ def run(chk):
             chk.violation("measures-stale-after-resize", dict(desc, what=prob)); break
         for prob in o.get("float32_form", []):
             chk.violation("input-element-type-changes-measures", dict(desc, what=prob)); break
+        for prob in o.get("copies", []):
+            chk.violation("copy-not-an-independent-solid", dict(desc, what=prob)); break
         cmp("surface_area", o["surface_area"], sum(areas), R ** 2)
         cmp("centroid", o["centroid"], cen_s, max(R, R ** 4 / max(abs(vol_s), 1e-300)))
         cmp("inertia_tensor", C.sym6(o["inertia"]), I_s, R ** 5)
